@@ -26,6 +26,7 @@ RULE = (
     "cancelled, or the queue is finished while a receive is pending; distinct = distinct op sequence"
 )
 RULE += '; __anext__ is called when the receive is issued (first step later); elements may be exception instances'
+RULE += '; consuming tasks that absorbed a cancellation earlier (sticky cancelling())'
 LEVEL_TEXT = (
     "Every operation sequence up to length 5 (quick) / 7 (thorough) is executed against the real AsyncQueue on a "
     "deterministic loop and compared with a FIFO reference; longer histories (<=40) are sampled. Exhaustive within "
@@ -72,7 +73,8 @@ def strategy(tier):
     # weights: receives and runs more frequent so that hand-off situations are common; bulk enqueues and completed
     # receives make long backlogs and long runs of deliveries reachable within 40 operations
     op = st.sampled_from(OPS + ["recv", "run", "enq1", "cancel_recv", "recvrun", "recvrun", "enq12", "tick", "tick"])
-    return st.builds(lambda ops, second: {"ops": ops, "second_loop": second}, st.lists(op, min_size=6, max_size=40), st.sampled_from([False, False, False, True]))
+    return st.builds(lambda ops, second, sticky: {"ops": ops, "second_loop": second, "sticky": sticky}, st.lists(op, min_size=6, max_size=40), st.sampled_from([False, False, False, True]),
+                     st.sampled_from([False, False, True]))  # fmt: skip
 
 
 def enumerate_cases(tier):
@@ -80,6 +82,10 @@ def enumerate_cases(tier):
     for length in range(0, n + 1):
         for ops in itertools.product(OPS, repeat=length):
             yield {"ops": list(ops)}
+    # every history of length <= 4 again with consuming tasks that absorbed a cancellation request before they receive
+    for length in range(0, 5):
+        for ops in itertools.product(OPS, repeat=length):
+            yield {"ops": list(ops), "sticky": True}
     # every history of length <= 4 again under the second event loop of the process
     for length in range(0, 5):
         for ops in itertools.product(OPS, repeat=length):
@@ -133,6 +139,14 @@ def run_case(case) -> Outcome:
             async def run():
                 if isinstance(aw, BaseException):
                     return ("exc", aw)
+                if case.get("sticky"):
+                    # the consuming task absorbed a cancellation request earlier (Task.cancelling() stays > 0 for good): not a
+                    # pending cancellation - receives work as ever
+                    asyncio.current_task().cancel()
+                    try:
+                        await asyncio.sleep(0)
+                    except asyncio.CancelledError:
+                        pass
                 try:
                     return ("val", await aw)
                 except BaseException as exc:  # noqa: BLE001 - observation, classified below
